@@ -63,7 +63,11 @@ WORK_US = [0, 30_000, 100_000, 250_000, 1_000_000]
 def _body(w, allow_raise=True):
     steps = []
     for _ in range(w.randint(0, 8)):
-        k = w.weighted([("work", 5), ("msg", 3), ("busy", 2), ("jump", 0.6)])
+        k = w.weighted([("work", 5), ("msg", 3), ("busy", 2), ("jump", 0.6), ("badwrite", 0.4)])
+        if k == "badwrite":
+            # the body writes something the formatter rejects, and carries on
+            steps.append(["badwrite", w.pick(["<fg=lilac>oops</>", "<info>a</comment>"])])
+            continue
         if k == "work":
             steps.append(["work", w.pick(WORK_US)])
         elif k == "jump":
@@ -124,6 +128,7 @@ def gen(S, tier):
         "granularity": "line" if fine else "seam",
         "sched_seed": s.getrandbits(48),
         "schedule": None,
+        "indent": c.pick([0, 0, 0, 2, 4]) if sc["ansi"] else 0,
     })
     if sc["real_stream"] and sc["ansi"] and sc["verbosity"] == 0 and f.chance(0.3):
         # fault: the file object under clikit's StreamOutputStream accepts only part of a write
@@ -245,7 +250,12 @@ def _mk_io(sc, log, screen, on_write=None, after_write=None):
         if sc.get("short_write_p"):
             srng = Rng((sc.get("sched_seed") or 0) ^ 0x5157)
             # never inside the cursor-control prefix of a frame: the device would see half a sequence
-            sw = lambda text: srng.randint(5, len(text) - 1) if len(text) > 6 and srng.random() < sc["short_write_p"] else len(text)
+            def sw(text):
+                lo = text.find("\x1b[2K")
+                lo = lo + 4 if lo >= 0 else 1
+                if len(text) > lo + 1 and srng.random() < sc["short_write_p"]:
+                    return srng.randint(lo, len(text) - 1)
+                return len(text)
         f = SimFile("err", log, screen=screen, on_write=None if wt else on_write, write_through=wt,
                     on_call=on_write, short_write=sw)
         f.after_write = after_write
@@ -334,6 +344,11 @@ def _auto(sc, res, clock, log):
             res.violate("line_is_one_frame", "auto", "terminal line shows %r after %s wrote %r" % (row, actor, data))
 
     stream, out = _mk_io(sc, log, screen, on_write, after_write)
+    if sc.get("indent"):
+        # the indicator runs inside an indentation scope of its output (the blanks in front of the
+        # carriage return are wiped with the line: the frame itself still starts at column 0)
+        out.indent(sc["indent"]).__enter__()
+        res.probe("inside_indentation_scope")
     if not sc["ansi"]:
         res.probe("plain_auto")
     if trace_files:
@@ -368,6 +383,12 @@ def _auto(sc, res, clock, log):
                     elif st[0] == "msg":
                         res.probe("set_message_while_spinning")
                         ind.set_message(st[1])
+                    elif st[0] == "badwrite":
+                        res.probe("body_survives_a_rejected_write")
+                        try:
+                            out.write_line(st[1])
+                        except ValueError:
+                            pass
                     elif st[0] == "raise":
                         marks[tag + "_exit_started"] = sched.steps
                         log.add("body_raises", st[1])
